@@ -4,11 +4,11 @@ for id in "$@"; do
   d=/verif/seeded/$id
   p=${id:0:3}
   [ -f $d/meta.json ] || echo "{\"property\": \"$p\"}" > $d/meta.json
-  /verif/tools/seed_run.py $d $p > $d/result_quick.jsonl 2>&1
+  /verif/tools/seed_run.py $d $p > $d/${OUTNAME:-result_quick.jsonl} 2>&1
   python3 - "$d" <<'PY'
 import json,sys
 d=sys.argv[1]
-for l in open(d+'/result_quick.jsonl'):
+for l in open(d+"/"+__import__("os").environ.get("OUTNAME","result_quick.jsonl")):
     try: r=json.loads(l)
     except Exception: print(d, 'RAW', l.strip()[:200]); continue
     v=[x for x in r['lines'] if x.startswith('VIOLATION')]
